@@ -59,6 +59,10 @@ class LinalgStub:
             return real_np.linalg.solve(real_np.array(A, dtype=complex), real_np.array(b, dtype=complex))
         n = A.shape[0]
         calls = C.extra.setdefault('solve_calls', [])
+        # the solver is a function: identical (A, b) give the identical unknowns
+        ckey = (tuple(SC.lift(v).p.key() for v in A.flat), tuple(SC.lift(v).p.key() for v in b.flat))
+        memo = C.extra.setdefault('solve_memo', {})
+        if ckey in memo: return memo[ckey].copy()
         k = len(calls)
         x = real_np.empty(n, dtype=object)
         for i in range(n):
@@ -67,7 +71,8 @@ class LinalgStub:
         for i in range(n):
             C.add_eq((SC.lift(lhs[i]) - SC.lift(b[i])).p)
         calls.append((A, b, x))
-        return x
+        memo[ckey] = x
+        return x.copy()
 
     def inv(s, M):
         C = core.CTX
@@ -75,6 +80,9 @@ class LinalgStub:
             return real_np.linalg.inv(real_np.array(M, dtype=complex))
         n = M.shape[0]
         calls = C.extra.setdefault('inv_calls', [])
+        ckey = tuple(SC.lift(v).p.key() for v in M.flat)
+        memo = C.extra.setdefault('inv_memo', {})
+        if ckey in memo: return memo[ckey].copy()
         k = len(calls)
         W = real_np.empty((n, n), dtype=object)
         symm = all((SC.lift(M[i, j]) - SC.lift(M[j, i])).p.is_zero() for i in range(n) for j in range(i))
@@ -89,7 +97,8 @@ class LinalgStub:
                 C.add_eq((SC.lift(P1[i, j]) - (1 if i == j else 0)).p)
                 C.add_eq((SC.lift(P2[i, j]) - (1 if i == j else 0)).p)
         calls.append((M, W))
-        return W
+        memo[ckey] = W
+        return W.copy()
 
 
 class NPFacade:
